@@ -144,7 +144,9 @@ def handle (line : String) : String :=
     | some v => "OK\t" ++ escape (reprVal v)
     | none => "BADDUMP"
   | ["cost", file, text] =>
-    match parseText Generated.lexCfg 100000 text file with
+    -- `parseCore` only: resolving the coordinates (`finish`) walks the AST as a tree, while the
+    -- declarators of one declaration share their specifier nodes
+    match parseCore 100000 (strip (scan Generated.lexCfg (fun _ => false) text.toList file)) with
     | (.ast _, some st) => "OK\t" ++ toString st.ticks ++ "\t" ++ toString st.lexCalls ++ "\t" ++ toString st.buf.size
     | (.ast _, none) => "OK?"
     | _ => "NOPARSE"
